@@ -13,13 +13,36 @@ import sys
 
 REPO = os.environ.get("VERIF_REPO", "/repo")
 sys.path.insert(0, REPO)
+import hal  # noqa: E402
 import hal.simulation as hs  # noqa: E402
 import ntcore  # noqa: E402
 import wpilib  # noqa: E402
+import wpilib.simulation  # noqa: E402
 from robotpy_ext.autonomous import AutonomousModeSelector  # noqa: E402
 
 logging.disable(logging.CRITICAL)
 LOG = []
+DS = wpilib.simulation.DriverStationSim
+NOALARM = 18446744073709551615
+_real_wait = hal.waitForNotifierAlarm
+
+
+def _wait_wrapper(handle):
+    """single-threaded: advance the simulated clock to the armed alarm, then let the real call return"""
+    nxt = hs.getNextNotifierTimeout()
+    now = wpilib.RobotController.getFPGATime()
+    if nxt == NOALARM:
+        return 0
+    if nxt > now:
+        hs.stepTimingAsync(nxt - now)
+    return _real_wait(handle)
+
+
+hal.waitForNotifierAlarm = _wait_wrapper
+
+
+class RunStuck(Exception):
+    pass
 
 
 def HOOK(m, k, t=None):
@@ -63,28 +86,127 @@ def run_trace(tid, shape, events, pkg, classes):
         return {"id": tid, "shape": shape, "steps": [{"in": {"e": "raised"}, "out": {"cb": [], "err": "%s: %s" % (type(e).__name__, e)}}]}
     wpilib.SmartDashboard.updateValues()
     steps = []
-    for ev in events:
-        ev = {k: v for k, v in ev.items() if k != "x"}
-        del LOG[:]
+
+    def simple(ev):
         k = ev["e"]
+        if k == "tick":
+            hs.stepTimingAsync(ev["d"])
+        elif k == "str":
+            wpilib.SmartDashboard.putString("Auto Selector", ev["s"])
+        elif k == "choose":
+            inst.getEntry("/SmartDashboard/Autonomous Mode/selected").setString(ev["s"])
+            wpilib.SmartDashboard.updateValues()
+        elif k == "start":
+            sel.start()
+        elif k == "periodic":
+            sel.periodic()
+        elif k == "disable":
+            sel.disable()
+
+    events = [{k: v for k, v in ev.items() if k != "x"} for ev in events]
+    i = 0
+    while i < len(events):
+        ev = events[i]
+        del LOG[:]
+        if ev.get("via") == "run" and ev["e"] == "start":
+            # the whole autonomous period through run(): start = timer + on_enable, one 'periodic' per loop iteration,
+            # the events inside an iteration are performed by iter_fn, 'tick' is NotifierDelay.wait(), the closing
+            # 'disable' is the one run() makes when the driver station leaves autonomous
+            j = i + 1
+            while j < len(events) and not (events[j].get("via") == "run" and events[j].get("last")):
+                j += 1
+            block = events[i:j + 1]
+            i = j + 1
+            try:
+                run_block(sel, block, steps, simple)
+            except Exception as e:  # noqa
+                steps.append({"in": {"e": "raised"}, "out": {"cb": list(LOG), "err": "%s: %s" % (type(e).__name__, e)}})
+                break
+            continue
+        i += 1
         try:
-            if k == "tick":
-                hs.stepTimingAsync(ev["d"])
-            elif k == "str":
-                wpilib.SmartDashboard.putString("Auto Selector", ev["s"])
-            elif k == "choose":
-                inst.getEntry("/SmartDashboard/Autonomous Mode/selected").setString(ev["s"])
-                wpilib.SmartDashboard.updateValues()
-            elif k == "start":
-                sel.start()
-            elif k == "periodic":
-                sel.periodic()
-            elif k == "disable":
-                sel.disable()
+            simple(ev)
         except Exception as e:  # noqa
             LOG.append({"m": "<raised>", "k": "%s: %s" % (type(e).__name__, e)})
         steps.append({"in": ev, "out": {"cb": list(LOG)}})
     return {"id": tid, "shape": shape, "steps": steps}
+
+
+def run_block(sel, block, steps, simple):
+    iters = []            # [[periodic event, inner events..., tick event]]
+    for ev in block[1:-1]:
+        if ev["e"] == "periodic":
+            iters.append([ev])
+        else:
+            iters[-1].append(ev)
+    period = next(ev["d"] for ev in block if ev["e"] == "tick")
+    state = {"n": 0}
+
+    def cut():
+        out = list(LOG)
+        del LOG[:]
+        return out
+
+    def fn():
+        n = state["n"]
+        state["n"] += 1
+        if n >= len(iters):
+            raise RunStuck("run() keeps iterating although the driver station left autonomous mode")
+        cbs = cut()
+        if n > 0:
+            steps.append({"in": dict(state["tick"], d=wpilib.RobotController.getFPGATime() - state["t"]), "out": {"cb": []}})
+        if n == 0:
+            k = 0
+            while k < len(cbs) and cbs[k]["k"] == "on_enable":
+                k += 1
+            steps.append({"in": block[0], "out": {"cb": cbs[:k]}})
+            cbs = cbs[k:]
+        steps.append({"in": iters[n][0], "out": {"cb": cbs}})
+        for ev in iters[n][1:-1]:
+            simple(ev)
+            steps.append({"in": ev, "out": {"cb": cut()}})
+        if n == len(iters) - 1:
+            DS.setEnabled(False)
+            DS.notifyNewData()
+        state["t"] = wpilib.RobotController.getFPGATime()
+        state["tick"] = iters[n][-1]
+
+    DS.setDsAttached(True)
+    DS.setAutonomous(True)
+    DS.setEnabled(True)
+    DS.notifyNewData()
+    wpilib.DriverStation.refreshData()
+    try:
+        sel.run(control_loop_wait_time=period / 1e6, iter_fn=fn)
+    finally:
+        DS.setEnabled(False)
+        DS.setAutonomous(False)
+        DS.notifyNewData()
+        wpilib.DriverStation.refreshData()
+    # what happened after the last iter_fn call: the wait, then run()'s own disable()
+    if state["n"] == 0:
+        raise RunStuck("run() returned without a single iteration")
+    tick = dict(state["tick"], d=wpilib.RobotController.getFPGATime() - state["t"])
+    steps.append({"in": tick, "out": {"cb": []}})
+    steps.append({"in": block[-1], "out": {"cb": cut()}})
+
+
+def run_block_events(rng):
+    """one autonomous period through run(): see run_block()"""
+    p = rng.choice([20000, 20000, 5000, 15625])
+    evs = [{"e": "start", "via": "run"}]
+    for _ in range(rng.choice([1, 2, 4, 7])):
+        evs.append({"e": "periodic", "via": "run"})
+        r = rng.random()
+        if r < 0.2:
+            evs.append({"e": "disable", "via": "run"})          # iter_fn (or the mode itself) calls disable() mid-run
+        elif r < 0.3:
+            evs.append({"e": "str", "s": rng.choice(["", "m1", "m2"]), "via": "run"})
+        elif r < 0.4:
+            evs.append({"e": "choose", "s": rng.choice(["m1", "m2", "None"]), "via": "run"})
+        evs.append({"e": "tick", "d": p, "via": "run"})
+    evs.append({"e": "disable", "via": "run", "last": True})
+    return evs
 
 
 def random_events(rng):
@@ -93,6 +215,10 @@ def random_events(rng):
     started = False
     for _ in range(rng.choice([10, 25, 50])):
         r = rng.random()
+        if rng.random() < 0.08:
+            evs += run_block_events(rng)
+            active = False
+            continue
         if r < 0.15:
             evs.append({"e": "tick", "d": rng.choice([0, 5000, 20000, 20000, 100000])})
         elif r < 0.25:
